@@ -525,6 +525,33 @@ func raceHMAC(c *Ctx) {
 			}
 		}
 	}
+	// the pool behind MESSAGE-INTEGRITY: after integrity operations that fail and succeed in every order (each takes an
+	// instance and returns it once), two instances taken at the same time are two instances
+	for order := 0; order < 8; order++ {
+		total++
+		key := stun.MessageIntegrity(patBytes(20, 60+order))
+		m := stun.MustBuild(stun.BindingRequest, stun.NewTransactionIDSetter([12]byte{0x18, byte(order)}), stun.NewUsername("u"), key)
+		for step := 0; step < 3; step++ {
+			if order>>step&1 == 1 {
+				_ = stun.MessageIntegrity("not the key").Check(m)
+			} else {
+				_ = key.Check(m)
+			}
+		}
+		k1, k2, msg := patBytes(20, 1), patBytes(33, 2), patBytes(50, 3)
+		h1 := hmacx.AcquireSHA1(k1)
+		h2 := hmacx.AcquireSHA1(k2)
+		h1.Write(msg)
+		h2.Write(msg)
+		g1, g2 := h1.Sum(nil), h2.Sum(nil)
+		hmacx.PutSHA1(h1)
+		hmacx.PutSHA1(h2)
+		if string(g1) != string(ref.HMACSHA1(k1, msg)) || string(g2) != string(ref.HMACSHA1(k2, msg)) {
+			c.Res.Violations = append(c.Res.Violations, raceViolation("wrong-digest/two-instances-after-integrity-checks", fmt.Sprintf("after three MessageIntegrity.Check calls (bit i of %d set: call i with a wrong key), two pooled instances taken at the same time with different keys: digests right = %v, %v", order, string(g1) == string(ref.HMACSHA1(k1, msg)), string(g2) == string(ref.HMACSHA1(k2, msg)))))
+			racePassFinish(c, total, "")
+			return
+		}
+	}
 	// the two pools are two pools: one key through both, in both orders (a long-term key is used with SHA-1 by RFC
 	// 5389 peers and with SHA-256 by RFC 8489 peers)
 	for _, kl := range []int{0, 20, 64, 65, 100, 300} {
